@@ -56,7 +56,9 @@ def gen_cases(rng, tags, n):
                 s = ' ' + s + ' '
             if nm == 'root':
                 s = s if rng.random() < 0.12 else ''
-            specs.append('%s:%s' % (hx(nm), hx(s)))
+            # the kind of logger behind the name: Logger / AsyncLogger with a recording appender, the File, RollingFile and Console logger plugins
+            kind = rng.choice('LLLAFRC') if 'C' not in [x[-1] for x in specs] else rng.choice('LLLAFR')
+            specs.append('%s:%s:%s' % (hx(nm), hx(s), kind))
         rng.shuffle(specs)
         cases.append('c ' + ' '.join(specs))
     return cases
@@ -73,9 +75,9 @@ def check(run):
         def nontrivial(c, obs):
             return obs not in ('err', 'u') and len(set(obs.split())) >= 2
         res = common.simple_family_check(run, 'c02', 'c02/universe%d' % u, cases, nontrivial,
-            'universe of ~80 registered tags (1-4 segments, with/without leading underscore, prefix-closed part); up to 4 loggers + optional root with '
+            'universe of ~80 registered tags (1-4 segments, with/without leading underscore, prefix-closed part); up to 4 loggers + optional root, each a Logger / AsyncLogger on a recording appender or a File / RollingFile / Console logger plugin, with '
             'literal / wildcard (all depths, useless, malformed) / duplicated tag lists in shuffled key order; observable = Refresh error, else for EVERY '
-            'registered tag the logger whose appender received an Info logged through it; non-trivial = at least two different serving loggers')
+            'registered tag the logger whose appender (or own file / JSON console line) received an Info logged through it; non-trivial = at least two different serving loggers')
         if res:
             mo, io = res
             errs = sum(1 for o in io if o == 'err')
